@@ -63,6 +63,8 @@ def run_real(binary, proj, base, timeout=20, release=False):
 
 def run_model(drv, dump_path, entry_qualified, fuel=FUEL, timeout=120):
     rc, out, err = core.sh([drv, dump_path, entry_qualified, str(fuel)], timeout=timeout)
+    if rc == 124:
+        return {"result": ("fuel",), "out": [], "trace": [], "stack": []}
     if rc != 0:
         return {"result": ("driver_crash", err.decode("utf8", "replace")[-300:]), "out": [], "trace": [], "stack": []}
     lines, trace, result, stack = [], [], None, []
